@@ -59,6 +59,15 @@ def gen(rng, n):
             else:                                               # malformed: min > max (must be rejected)
                 mx = rng.range(-2**31, 2**31 - 2); mn = rng.range(mx + 1, I32[1])
             lines.append("int %d %d %d %d" % (seed, mn, mx, 1 if mn > mx else rng.range(1, 12)))
+        elif k == 7 and rng.below(2) == 0:
+            # degenerate and few-ulp-wide intervals around arbitrary (non-dyadic) doubles: where a rewriting of
+            # min + (max-min)*r (e.g. min*(1-r) + max*r) leaves [min,max] by a rounding step
+            import math
+            base = rng.choice([0.1, 0.3, 1.0 / 3, 1e-9, 123456.789, -0.7, 5e15, -2.5e-7, 1e300, 3.0]) * (1 + rng.below(1000) / 997.0)
+            hi = base
+            for _ in range(rng.choice([0, 0, 1, 2, 3, 7])):
+                hi = math.nextafter(hi, math.inf)
+            lines.append("realx %d %s %s %d" % (seed, float(base).hex(), float(hi).hex(), rng.range(2, 8)))
         else:
             den = 2 ** rng.range(0, 10)
             a = rng.range(-2**20, 2**20)
@@ -69,9 +78,13 @@ def gen(rng, n):
 
 def canon(line):
     """hexfloat answers of `real` queries -> exact rationals (the Lean driver parses p/q)."""
-    if not (line.startswith("real ") or line.startswith("injreal ")):
+    if not (line.startswith("real ") or line.startswith("injreal ") or line.startswith("realx ")):
         return line
     q, a = line.split(" =>", 1)
+    if q.startswith("realx "):      # the bounds are hexfloats too: hand the driver their exact values as a `real` query
+        t = q.split()
+        fa, fb = Fraction(float.fromhex(t[2])), Fraction(float.fromhex(t[3]))
+        q = "real %s %d/%d %d/%d %s" % (t[1], fa.numerator, fa.denominator, fb.numerator, fb.denominator, t[4])
     vals = []
     for t in a.split():
         f = Fraction(float.fromhex(t))
